@@ -55,6 +55,15 @@ def flatten(t, path=''):
     from ..evalr import _strip_raise
     if T.tag(t) == 'phi':
         t = _strip_raise(t)        # a row whose derivation raises is not emitted at all
+    if T.tag(t) == 'phi' and any(T.tag(x) in ('dict', 'list', 'tuple') or T.is_op(x, 'MAP') for x in (t[2], t[3])):
+        # a shape that depends on a condition (an option of the filter): the leaves of every alternative
+        seen = set()
+        for alt in (t[2], t[3]):
+            for pth, leaf in flatten(alt, path):
+                if (pth, leaf) not in seen:
+                    seen.add((pth, leaf))
+                    yield pth, leaf
+        return
     k = T.tag(t)
     if k == 'dict':
         for a, b in t[1]:
@@ -68,12 +77,13 @@ def flatten(t, path=''):
         yield path, t
 
 
-def generate_variants(p):
+def generate_variants(p, qual='paper_wallet.PaperWallet.generate', skip=3):
     """Keyword settings under which generate() must be filtered correctly: its defaults, and every optional parameter
-    beyond (account, interval) switched away from its default (booleans flipped, anything else symbolic)."""
-    fi = p.get_function('paper_wallet.PaperWallet.generate')
+    beyond (account, interval) switched away from its default (booleans flipped, anything else symbolic).  Also used for
+    the optional parameters of the filter itself."""
+    fi = p.get_function(qual)
     out = [('', {})]
-    for name in fi.params[3:]:
+    for name in fi.params[skip:]:
         d = fi.defaults.get(name)
         if isinstance(d, ast.Constant) and isinstance(d.value, bool):
             out.append((' %s=%s' % (name, not d.value), {name: T.const(not d.value)}))
@@ -109,9 +119,12 @@ def run(ctx):
         'unfiltered output. In main(), the data reaching the output sinks under --paranoia must be the filtered value.')
     ctx.not_decided = ['JSON rendering of the filtered structure (json.dumps is trusted)']
     fpm = p.get_function('__main__.paranoia_mode')
-    for be, tn, (vname, extra) in [(b_, t_, v_) for b_ in BACKENDS for t_ in (False, True) for v_ in generate_variants(p)]:
+    fvariants = generate_variants(p, '__main__.paranoia_mode', 1)
+    for be, tn, (vname, extra), (fname, fextra) in [(b_, t_, v_, f_) for b_ in BACKENDS for t_ in (False, True)
+                                                     for v_ in generate_variants(p) for f_ in fvariants
+                                                     if not (v_[0] and f_[0])]:
         if True:
-            cfg = '%s/%s%s' % (be, 'testnet' if tn else 'mainnet', vname)
+            cfg = '%s/%s%s%s' % (be, 'testnet' if tn else 'mainnet', vname, (' filter' + fname) if fname else '')
             with ctx.obligation('C15.FILTER', '__main__.paranoia_mode', cfg, fpm.where) as ob:
                 ev, w, secrets, full, facts = generate_shape(p, be, 'prv', T.const(tn), extra)
                 full_leaves = dict(flatten(full))
@@ -125,7 +138,7 @@ def run(ctx):
                         '; '.join(sorted({o[1] for t in full_leaves.values() for o in T.opaques(t)}))[:200] or 'floor 17/15 not met'), fpm.where)
                     continue
                 ob.require(True, 'the shape of generate() was understood (secret and public leaves found)', fpm.where)
-                v, f = ev.call_function('__main__.paranoia_mode', [full])
+                v, f = ev.call_function('__main__.paranoia_mode', [full], dict(fextra))
                 alts = distinct_normal_leaves(v)
                 if not alts or any(T.tag(x) != 'dict' for x in alts):
                     ob.undecided('paranoia_mode does not evaluate to dictionary-shaped values: %s' % T.show(v, maxdepth=3))
@@ -145,15 +158,21 @@ def run(ctx):
                 for alt in alts:
                     for pth, t in flatten(alt):
                         out.setdefault(pth, t)
-                        if out[pth] != t:
+                        if out[pth] != t and not fextra:
                             ob.require(False, 'filtered leaf %s differs between alternatives of the filter' % pth, fpm.where)
-                ob.require(len(out) >= 15, 'the filtered output keeps the public records', fpm.where, found=len(out))
+                        elif out[pth] != t:
+                            out[pth + ' (alternative)'] = t
+                # (a non-default setting of an optional parameter of the filter may legitimately drop more; the clauses about
+                # what is kept are decided for the default filter)
+                if not fextra:
+                    ob.require(len(out) >= 15, 'the filtered output keeps the public records', fpm.where, found=len(out))
                 for pth, t in sorted(out.items()):
                     require_no_opaque(ob, t, 'filtered leaf %s' % pth)
                     ob.require(not is_secret(t, secrets),
                                'paranoia-filtered output carries secret material at %s' % pth, fpm.where,
                                found=T.show(t, maxdepth=4))
-                    ob.require(pth in full_leaves and full_leaves[pth] == t,
+                    pth0 = pth.replace(' (alternative)', '')
+                    ob.require((pth0 in full_leaves and full_leaves[pth0] == t) or (bool(fextra) and t in full_leaves.values()),
                                'filtered leaf %s is not the unfiltered value at the same place' % pth, fpm.where,
                                expected=T.show(full_leaves.get(pth), maxdepth=3) if pth in full_leaves else 'same access path in generate()',
                                found=T.show(t, maxdepth=3))
@@ -162,7 +181,8 @@ def run(ctx):
                 # everything public in the BIP44/49/84 records survives the filter
                 for pth in pub_paths:
                     if pth.startswith(("['BIP44']", "['BIP49']", "['BIP84']")) and len(alts) == 1:
-                        ob.require(pth in out, 'public leaf %s of the full output is missing from the filtered output' % pth, fpm.where)
+                        if not fextra:
+                            ob.require(pth in out, 'public leaf %s of the full output is missing from the filtered output' % pth, fpm.where)
     # ---------------------------------------------------------------- the sinks emit the data they are given
     from .C20 import check_sinks
     check_sinks(ctx, 'C15.SINKS')
